@@ -64,7 +64,7 @@ def ident(name):
     return _ident(name)
 
 
-WANTED = ["_occurrence_intersection", "_compute_score_matrix", "standard_FPR", "establishment_FPR",
+WANTED = ["_occurrence_intersection", "_compute_score_matrix", "standard_FPR", "establishment_FPR", "occurrence_FPR",
           "three_layer_FPR", "first_n_three_layer_P", "first_n_target_proportion_R"]
 
 # parameter kinds by name (the numpydoc text of the public functions says "list" for the pattern lists)
@@ -83,7 +83,8 @@ def lean_type(t):
         return "(" + " × ".join(lean_type(x) for x in t[1]) + ")"
     return {"nat": "Nat", "int": "Int", "rat": "Rat", "npf": "Rat", "bool": "Bool", "str": "String", "unit": "Unit",
             "pats": PP + "Pats", "pat": PP + "Pat", "occ": PP + "Occ", "pt": PP + "Pt", "arr2": "(List (List Rat))",
-            "vec": "(List Rat)", "mat": PP + "Mat", "set": "(List " + PP + "Pt)"}[t]
+            "vec": "(List Rat)", "mat": PP + "Mat", "set": "(List " + PP + "Pt)", "omat": PP + "OMat",
+            "rel": "(List (Nat × Nat))", "idxs": "(List Nat)"}[t]
 
 
 def isnum(t):
@@ -110,6 +111,10 @@ class Ctx:
         self.consts = {}       # specialised parameters: name -> int
         self.funcalias = {}    # static function aliases (`func = g`)
         self.join, self.ret, self.shared = None, None, None
+        self.zeros3 = {}       # (a, b, 2) array name -> [X, Y] declared, not yet filled
+        self.relpend = set()   # `np.empty((0, 2), dtype=int)` index lists declared, not yet filled
+        self.tail = None       # what ends the body of a sparse fill
+        self.jointypes = None  # types the joined names are cast to
 
     def tmp(self):
         self.ntmp += 1
@@ -284,6 +289,22 @@ class Translator:
                 raise Unsupported("index %r used on %r" % (s.id, e.value.id), e)
             return elem, ty
         v, tv = self.expr(e.value, c, pre)
+        full = lambda q: isinstance(q, ast.Slice) and q.lower is None and q.upper is None and q.step is None  # noqa: E731
+        if tv == "omat" and isinstance(s, ast.Tuple) and len(s.elts) == 3 and full(s.elts[0]) and full(s.elts[1]) \
+                and self.const_int(s.elts[2], c) in (0, 1):
+            return "(%splane%d %s)" % (PP, self.const_int(s.elts[2], c), v), "mat"
+        if tv == "rel" and isinstance(s, ast.Tuple) and len(s.elts) == 2 and full(s.elts[0]) \
+                and self.const_int(s.elts[1], c) in (0, 1):
+            return "(%srelCol%d %s)" % (PP, self.const_int(s.elts[1], c), v), "idxs"
+        if tv == "mat" and isinstance(s, ast.Call) and self.callee_name(s.func, c) == "np.ix_" and len(s.args) == 2 \
+                and not s.keywords:
+            a, ta = self.expr(s.args[0], c, pre)
+            b, tb = self.expr(s.args[1], c, pre)
+            if ta != "idxs" or tb != "idxs":
+                raise Unsupported("np.ix_ of %s, %s" % (ta, tb), e)
+            t = c.tmp()
+            pre.append("let %s : %sMat ← %six %s %s %s" % (t, PP, PP, v, a, b))
+            return t, "mat"
         if isinstance(s, ast.Slice):
             if s.lower is not None or s.step is not None or s.upper is None or tv not in ELEM:
                 raise Unsupported("slice", e)
@@ -322,7 +343,7 @@ class Translator:
         if fn == "len":
             one()
             v, tv = self.expr(args[0], c, pre)
-            if tv in ("pats", "pat", "occ", "pt", "arr2", "set", "vec"):
+            if tv in ("pats", "pat", "occ", "pt", "arr2", "set", "vec", "rel"):
                 return "(List.length %s)" % v, "nat"
             raise Unsupported("len of %s" % tv, e)
         if fn == "float":
@@ -505,6 +526,10 @@ class Translator:
         return names[0] if len(names) == 1 else "(" + ", ".join(names) + ")"
 
     def fallthrough(self, c, node=None):
+        if c.tail is not None:
+            return c.tail(c)
+        if c.join is not None and c.jointypes is not None:
+            return ["pure %s" % self.state_term([self.cast(ident(n), c.env[n], c.jointypes[n]) for n in c.join])]
         if c.loop is not None:
             return ["pure (%sStep.next %s)" % (PP, self.state_term([ident(n) for n in c.loop]))]
         if c.join is not None:
@@ -617,12 +642,27 @@ class Translator:
         if (isinstance(tg, ast.Name) and isinstance(s.value, ast.Call)
                 and self.callee_name(s.value.func, c) == "np.zeros"):
             a = s.value.args
-            if not (len(a) == 1 and not s.value.keywords and isinstance(a[0], ast.Tuple) and len(a[0].elts) == 2):
-                raise Unsupported("np.zeros of another shape than (a, b)", s)
-            if tg.id in c.env or tg.id in c.zeros:
+            if tg.id in c.env or tg.id in c.zeros or tg.id in c.zeros3:
                 raise Unsupported("matrix %r re-declared" % tg.id, s)
+            if (len(a) == 1 and not s.value.keywords and isinstance(a[0], ast.Tuple) and len(a[0].elts) == 3
+                    and self.const_int(a[0].elts[2], c) == 2):
+                c.zeros3[tg.id] = [self.resolve_len(x, c) for x in a[0].elts[:2]]
+                return ["-- %s = np.zeros((., ., 2)): filled below" % tg.id] + self.block(rest, c)
+            if not (len(a) == 1 and not s.value.keywords and isinstance(a[0], ast.Tuple) and len(a[0].elts) == 2):
+                raise Unsupported("np.zeros of another shape than (a, b) / (a, b, 2)", s)
             c.zeros[tg.id] = [self.resolve_len(x, c) for x in a[0].elts]
             return ["-- %s = np.zeros(...): filled below" % tg.id] + self.block(rest, c)
+        # rel_idx = np.empty((0, 2), dtype=int)
+        if (isinstance(tg, ast.Name) and isinstance(s.value, ast.Call)
+                and self.callee_name(s.value.func, c) == "np.empty"):
+            a, kws = s.value.args, s.value.keywords
+            ok = (len(a) == 1 and isinstance(a[0], ast.Tuple) and [self.const_int(x, c) for x in a[0].elts] == [0, 2]
+                  and len(kws) == 1 and kws[0].arg == "dtype" and isinstance(kws[0].value, ast.Name)
+                  and kws[0].value.id == "int")
+            if not ok or tg.id in c.env or tg.id in c.relpend:
+                raise Unsupported("np.empty other than ((0, 2), dtype=int)", s)
+            c.relpend.add(tg.id)
+            return ["-- %s = np.empty((0, 2), dtype=int): filled below" % tg.id] + self.block(rest, c)
         # func = g  (static alias, only under a folded test)
         if isinstance(tg, ast.Name) and isinstance(s.value, ast.Name) and s.value.id not in c.env \
                 and s.value.id not in c.consts and self.is_function(s.value.id, c):
@@ -697,7 +737,9 @@ class Translator:
             self.merge_ret(c, cb, ce)
             return pre + ["if %s then do" % t] + indent(lb) + ["else do"] + indent(le)
         # neither branch leaves: join the names assigned in them
-        names = [n for n in self.assigned(s.body + s.orelse)]
+        ab, ae = self.assigned(s.body), self.assigned(s.orelse)
+        # a name assigned on one path only and not defined before is local to that path
+        names = [n for n in self.assigned(s.body + s.orelse) if (n in ab and n in ae) or n in c.env]
         cb, ce = self.fork(c), self.fork(c)
         cb.join = ce.join = names
         cb.loop = ce.loop = None
@@ -705,20 +747,34 @@ class Translator:
         cb.cell = ce.cell = None
         lb = self.block(s.body, cb)
         le = self.block(s.orelse, ce)
+        jt = {}
         for n in names:
             tb_, te_ = cb.env.get(n), ce.env.get(n)
             if tb_ is None or te_ is None:
                 raise Unsupported("%r is not defined on both paths" % n, s)
             if tb_ != te_:
-                if isnum(tb_) and isnum(te_):
-                    raise Unsupported("%r: %s on one path, %s on the other" % (n, tb_, te_), s)
-                raise Unsupported("%r has two types" % n, s)
-            c.env[n] = tb_
+                if not (isnum(tb_) and isnum(te_)):
+                    raise Unsupported("%r has two types" % n, s)
+                tb_ = self.join_num(tb_, te_)        # e.g. the int 0 on one path, an np.float64 on the other
+            jt[n] = tb_
+        if any(cb.env[n] != jt[n] or ce.env[n] != jt[n] for n in names):
+            cb, ce = self.fork(c), self.fork(c)
+            cb.join = ce.join = names
+            cb.loop = ce.loop = None
+            cb.cell = ce.cell = None
+            cb.jointypes = ce.jointypes = jt
+            lb = self.block(s.body, cb)
+            le = self.block(s.orelse, ce)
+        for n in names:
+            c.env[n] = jt[n]
             c.alias[n] = None
         c.ntmp = max(cb.ntmp, ce.ntmp)
         c.cell = saved_cell
         ty_ = lean_type(c.env[names[0]]) if len(names) == 1 else "(" + " × ".join(lean_type(c.env[n]) for n in names) + ")"
-        head = "let %s : %s ← (if %s then do" % (self.state_term([ident(n) for n in names]), ty_, t)
+        if len(names) == 1:
+            head = "let %s : %s ← (if %s then do" % (ident(names[0]), ty_, t)
+        else:
+            head = "let (%s) ← (show Py %s from if %s then do" % (", ".join(ident(n) for n in names), ty_, t)
         return pre + [head] + indent(lb, 4) + ["  else do"] + indent(le, 4) + ["  )"] + self.block(rest, c)
 
     def fork(self, c):
@@ -727,6 +783,8 @@ class Translator:
         c2.alias = dict(c.alias)
         c2.zeros = dict(c.zeros)
         c2.funcalias = dict(c.funcalias)
+        c2.zeros3 = dict(c.zeros3)
+        c2.relpend = set(c.relpend)
         c2.shared = c.shared
         return c2
 
@@ -769,6 +827,8 @@ class Translator:
         cell = self.find_cell(s.body)
         if cell is not None and cell.value.id in c.zeros:
             return self.fill(s, rest, c, cell)
+        if cell is not None and cell.value.id in c.zeros3:
+            return self.fill_sparse(s, rest, c, cell)
         if kind != "plain" and kind != "enum":
             raise Unsupported("range loop outside a matrix fill", s)
         if c.join is not None:
@@ -836,6 +896,81 @@ class Translator:
         c.alias[M] = None
         head = "let %s : %sMat ← %s%s %s %s (fun %s => do" % (ident(M), PP, PP, prim, ident(rows[0]), ident(cols[0]),
                                                               " ".join(binders))
+        return [head] + indent(body, 4) + ["  )"] + self.block(rest, c)
+
+    def fill_sparse(self, s, rest, c, cell):
+        """O = np.zeros((len X, len Y, 2)); rel = np.empty((0, 2), dtype=int); for i, x in enumerate(X): for j, y in
+        enumerate(Y): ...; if cond: O[i, j, 0] = e0; O[i, j, 1] = e1; rel = np.vstack((rel, [i, j]))"""
+        O = cell.value.id
+        if c.join is not None or c.loop is not None or c.cell is not None or c.tail is not None:
+            raise Unsupported("sparse fill inside another construct", s)
+        i, x, X, kind = self.loop_head(s, c)
+        if len(s.body) != 1 or not isinstance(s.body[0], ast.For) or kind != "enum":
+            raise Unsupported("sparse fill that is not two directly nested enumerate loops", s)
+        inner = s.body[0]
+        j, y, Y, kind2 = self.loop_head(inner, c)
+        if kind2 != "enum" or c.env.get(Y) not in ELEM or c.zeros3[O] != [X, Y]:
+            raise Unsupported("loops of the sparse fill do not run over the array's dimensions", inner)
+        last = inner.body[-1] if inner.body else None
+        if not (isinstance(last, ast.If) and not last.orelse and len(last.body) == 3):
+            raise Unsupported("sparse fill: the inner body must end in `if c: O[i,j,0]=..; O[i,j,1]=..; rel = np.vstack(..)`", inner)
+        vals, rel = {}, None
+        for st in last.body:
+            if not (isinstance(st, ast.Assign) and len(st.targets) == 1):
+                raise Unsupported("statement in the storing branch", st)
+            tg = st.targets[0]
+            if isinstance(tg, ast.Subscript) and isinstance(tg.value, ast.Name) and tg.value.id == O \
+                    and isinstance(tg.slice, ast.Tuple) and len(tg.slice.elts) == 3 \
+                    and [getattr(q, "id", None) for q in tg.slice.elts[:2]] == [i, j] \
+                    and self.const_int(tg.slice.elts[2], c) in (0, 1) and self.const_int(tg.slice.elts[2], c) not in vals:
+                vals[self.const_int(tg.slice.elts[2], c)] = st.value
+            elif isinstance(tg, ast.Name) and tg.id in c.relpend and rel is None:
+                v = st.value
+                ok = (isinstance(v, ast.Call) and self.callee_name(v.func, c) == "np.vstack" and len(v.args) == 1
+                      and not v.keywords and isinstance(v.args[0], ast.Tuple) and len(v.args[0].elts) == 2
+                      and isinstance(v.args[0].elts[0], ast.Name) and v.args[0].elts[0].id == tg.id
+                      and isinstance(v.args[0].elts[1], ast.List)
+                      and [getattr(q, "id", None) for q in v.args[0].elts[1].elts] == [i, j])
+                if not ok:
+                    raise Unsupported("index list update other than np.vstack((rel, [i, j]))", st)
+                rel = tg.id
+            else:
+                raise Unsupported("statement in the storing branch", st)
+        if sorted(vals) != [0, 1] or rel is None:
+            raise Unsupported("storing branch must set both planes and the index list", last)
+
+        def tail(cc):
+            cc = self.fork(cc)
+            cc.tail = None
+            pre = []
+            t, ty = self.expr(last.test, cc, pre)
+            if ty != "bool":
+                raise Unsupported("condition of type %s" % ty, last)
+            p2 = []
+            e0, t0 = self.expr(vals[0], cc, p2, want="rat")
+            e1, t1 = self.expr(vals[1], cc, p2, want="rat")
+            if not (isnum(t0) and isnum(t1)):
+                raise Unsupported("stored values of types %s, %s" % (t0, t1), last)
+            c.ntmp = max(c.ntmp, cc.ntmp)
+            self._sparse_ntmp = cc.ntmp
+            return pre + ["if %s then do" % t] + indent(p2 + ["pure (some (%s, %s))" % (self.cast(e0, t0, "rat"),
+                                                                                       self.cast(e1, t1, "rat"))]) \
+                + ["else do", "  pure none"]
+        cb = self.fork(c)
+        cb.tail = tail
+        cb.env[x] = ELEM[c.env[X]]
+        cb.env[y] = ELEM[c.env[Y]]
+        cb.alias[x] = cb.alias[y] = None
+        self._sparse_ntmp = cb.ntmp
+        body = self.block(inner.body[:-1], cb)
+        c.ntmp = max(cb.ntmp, self._sparse_ntmp)
+        del c.zeros3[O]
+        c.relpend.discard(rel)
+        c.env[O], c.env[rel] = "omat", "rel"
+        c.alias[O] = c.alias[rel] = None
+        head = "let (%s, %s) ← %sfillOpt %s %s (fun (%s : %s) (%s : %s) => do" % (
+            ident(O), ident(rel), PP, ident(X), ident(Y), ident(x), lean_type(ELEM[c.env[X]]), ident(y),
+            lean_type(ELEM[c.env[Y]]))
         return [head] + indent(body, 4) + ["  )"] + self.block(rest, c)
 
     # ---------------------------------------------------------------- functions
